@@ -72,6 +72,7 @@ pub struct Labels {
     pub internal_def_forward: u32,
     pub let_over_lambda: u32,
     pub closure_per_round: u32,
+    pub closures_in_data: u32,
     pub redefinitions: u32,
     pub builtin_shadowed: u32,
     pub one_armed_if: u32,
@@ -1001,7 +1002,48 @@ impl<'a, 'b> Gen<'a, 'b> {
         let n = 1 + self.ch.below(self.cfg.max_forms);
         let depth = self.cfg.max_depth;
         for _ in 0..n {
-            match self.ch.weighted(&[3, 4, 2, 6, 1, 1, 1]) {
+            match self.ch.weighted(&[3, 4, 2, 6, 1, 1, 1, 1]) {
+                7 => {
+                    // closures leave a body with internal definitions inside a list (the body ends in a variable, not in
+                    // a call); they are called after the body has returned
+                    let k = forms.len();
+                    let (mk, ops) = (format!("mk-ops{}", k), format!("ops{}", k));
+                    let s0 = self.ch.range(1, 9) as i32;
+                    let lam0 = |body: Expr| Expr::Lambda(Formals { fixed: vec![], rest: None }, body1(body));
+                    let lam1 = |body: Expr| Expr::Lambda(Formals { fixed: vec!["d".into()], rest: None }, body1(body));
+                    let with_set = self.cfg.set;
+                    let adder = if with_set {
+                        Expr::Lambda(
+                            Formals { fixed: vec!["d".into()], rest: None },
+                            Box::new(Body { defs: vec![], exprs: vec![Expr::Set("k".into(), Box::new(app("+", vec![var("k"), var("d")]))), var("k")] }),
+                        )
+                    } else {
+                        lam1(app("+", vec![var("k"), var("d")]))
+                    };
+                    let tail = if self.ch.chance(1, 2) { var("made") } else { Expr::If(Box::new(Expr::Bool(true)), Box::new(var("made")), Some(Box::new(Expr::Int(0)))) };
+                    forms.push(Form::Define(Def {
+                        name: mk.clone(),
+                        value: Expr::Lambda(
+                            Formals { fixed: vec!["s".into()], rest: None },
+                            Box::new(Body {
+                                defs: vec![
+                                    Def { name: "k".into(), value: var("s"), sugar: false },
+                                    Def { name: "get".into(), value: lam0(var("k")), sugar: true },
+                                    Def { name: "add".into(), value: adder, sugar: true },
+                                    Def { name: "made".into(), value: app("list", vec![var("get"), var("add")]), sugar: false },
+                                ],
+                                exprs: vec![tail],
+                            }),
+                        ),
+                        sugar: self.ch.chance(1, 2),
+                    }));
+                    forms.push(Form::Define(Def { name: ops.clone(), value: app(&mk, vec![Expr::Int(s0)]), sugar: false }));
+                    forms.push(Form::Expr(Expr::App(Box::new(app("car", vec![var(&ops)])), vec![])));
+                    forms.push(Form::Expr(Expr::App(Box::new(app("cadr", vec![var(&ops)])), vec![Expr::Int(3)])));
+                    forms.push(Form::Expr(Expr::App(Box::new(app("car", vec![var(&ops)])), vec![])));
+                    self.labels.closures_escaping += 1;
+                    self.labels.closures_in_data += 1;
+                }
                 5 => {
                     // a top-level name defined twice with values that are alike but not the same: two closures of
                     // one lambda over different bindings, or 1 and 1.0
